@@ -18,10 +18,10 @@
   only when the start is on the week start, see D-C01e), the defaults taken from the start, COUNT, UNTIL (for WEEKLY: UNTIL not before
   the start), plus `iter_eq_spec_monthly_nth_partial` / `iter_eq_spec_yearly_nth_partial` /
   `iter_eq_spec_yearly_bymonth_nth_partial`: nth weekdays counted inside the month (MONTHLY, or YEARLY
-  with BYMONTH) or the year (YEARLY without BYMONTH).  Missing: the three sub-daily frequencies (the
-  model skips empty periods, so the refinement is not period-by-period), BYWEEKNO, mixing nth BYDAY
-  with BYMONTHDAY, and BYEASTER (for the latter the mask lemma
-  `eastermask_marks_easter_offsets` is proved but not yet wired into the refinement).  Everything else below — including
+  with BYMONTH) or the year (YEARLY without BYMONTH).  And `iter_eq_spec_yearly_easter_partial`: YEARLY with BYEASTER
+  offsets −80..250 in 1583..4099.  Missing: the three sub-daily frequencies (the model skips empty
+  periods, so the refinement is not period-by-period), BYWEEKNO, BYEASTER for the other frequencies,
+  and mixing nth BYDAY / BYEASTER with BYMONTHDAY or plain BYDAY.  Everything else below — including
   `iter_strictMono` for all seven frequencies — is proved for ALL rules / all argument sets, with no
   `Supported` hypothesis (so also inside the known-defect classes).
 -/
@@ -35,6 +35,7 @@ import DateutilVerif.Proofs.RRuleValid
 import DateutilVerif.Proofs.RRuleNthMonthly
 import DateutilVerif.Proofs.RRuleNthYearly
 import DateutilVerif.Proofs.RRuleNthYM
+import DateutilVerif.Proofs.RRuleEasterYearly
 
 namespace C01
 open RRule Cal RRule.Tables
@@ -338,6 +339,16 @@ theorem iter_eq_spec_yearly_bymonth_nth_partial (a : Args) (r : Rule) (na : NthY
     (iter r n).1 = Spec.RRule.occ a n :=
   iter_eq_spec_yearly_bymonth_nth na h n hy
 
+/-- **`iter_eq_spec`, proved portion, YEARLY with BYEASTER** on the supported class = the complement of
+    D-C01d (offsets −80..250) inside the years 1583..4099 where C19 proves `easter.easter` canonical:
+    INTERVAL ≥ 1, valid start, any BYMONTH / BYYEARDAY / BYHOUR / BYMINUTE / BYSECOND / BYSETPOS, any COUNT /
+    UNTIL, no BYMONTHDAY / BYDAY / BYWEEKNO: exactly the specification's recurrence set (Easter by
+    Meeus/Jones/Butcher). -/
+theorem iter_eq_spec_yearly_easter_partial (a : Args) (r : Rule) (ea : EasterYArgs a) (h : construct a = .ok r)
+    (n : Nat) (hlo : 1583 ≤ a.dtstart.y) (hy : a.dtstart.y + n * a.interval ≤ 4099) :
+    (iter r n).1 = Spec.RRule.occ a n :=
+  iter_eq_spec_yearly_easter ea h n hlo hy
+
 /-! ### non-vacuity and the known-finding witnesses reproduced by the model -/
 
 def dt (y m d : Int) (hh : Int := 0) (mm : Int := 0) (ss : Int := 0) : DT := { y, m, d, hh, mm, ss, us := 0 }
@@ -394,6 +405,12 @@ example : NthYMArgs { freq := 0, dtstart := dt 2024 1 1 12, bymonth := some [11]
   ⟨rfl, by decide, by decide, rfl, rfl, rfl, ⟨[11], rfl, by decide, by decide⟩, ⟨[(3, 4)], rfl, by decide, by decide⟩⟩
 example : dates (construct { freq := 0, dtstart := dt 2024 1 1 12, bymonth := some [11], byweekday := some [(3, 4)] }) 3
     = [(2024, 11, 28), (2025, 11, 27), (2026, 11, 26)] := by decide +kernel
+
+-- an EasterYArgs instance: Easter Monday and Ascension Day every year
+example : EasterYArgs { freq := 0, dtstart := dt 2024 1 1 10, byeaster := some [1, 39] } :=
+  ⟨rfl, by decide, by decide, rfl, rfl, rfl, ⟨[1, 39], rfl, by decide, by decide⟩⟩
+example : dates (construct { freq := 0, dtstart := dt 2024 1 1 10, byeaster := some [1, 39] }) 2
+    = [(2024, 4, 1), (2024, 5, 9), (2025, 4, 21), (2025, 5, 29)] := by decide +kernel
 
 -- D-C01a: MONTHLY with plain MO and nth TU(1): nothing in a whole year although the set has every Monday
 example : dates (construct { freq := 1, dtstart := dt 2020 1 1 9, byweekday := some [(0, 0), (1, 1)] }) 12 = [] := by
